@@ -34,8 +34,51 @@ REQUIRED_FUNCS = ["wrappers.py:unwrap", "wrappers.py:AbstractUnwrappable.recursi
 
 def plan(tier, seed):
     nsh = 16
-    return [{"name": f"C12-{i}", "shard": i, "nshards": nsh, "nest": 20 if tier != "thorough" else 200, "train": 4 if tier != "thorough" else 40,
-             "x64": True, "timeout": 3400} for i in range(nsh)]
+    shards = [{"name": f"C12-{i}", "shard": i, "nshards": nsh, "nest": 20 if tier != "thorough" else 200, "train": 4 if tier != "thorough" else 40,
+               "x64": True, "timeout": 3400} for i in range(nsh)]
+    if tier == "thorough":
+        # the repository's own test-suite as an extra workload under the unwrap contract and the returned-shape contracts
+        shards.append({"name": "C12-suite-under-contracts", "shard": 99, "nshards": nsh, "pytest": True, "x64": False, "reach": False, "timeout": 3400})
+    return shards
+
+
+def run_suite_under_contracts(shard):
+    """Thorough tier: run the repository's tests with the contracts installed (pytest plugin fjmon.pytest_contracts).  A test that
+    passes in the baseline and fails here *with a contract error* is a violation; the contract counters go to the evidence."""
+    import json
+    import os
+    import subprocess
+    import sys
+    import tempfile
+    import xml.etree.ElementTree as ET
+    from fjmon import env
+
+    work = tempfile.mkdtemp(prefix="c12suite", dir=os.path.join(env.VERIF_DIR, ".work"))
+    junit, cout = os.path.join(work, "j.xml"), os.path.join(work, "c.json")
+    e = dict(os.environ, PYTHONPATH=env.VERIF_DIR + os.pathsep + env.REPO, FJMON_CONTRACT_OUT=cout, VERIF_REPO=env.REPO)
+    tests = os.path.join("/repo", "tests")
+    subprocess.run([sys.executable, "-m", "pytest", "-q", "-p", "no:cacheprovider", "-p", "fjmon.pytest_contracts", "--timeout=900",
+                    "--continue-on-collection-errors", f"--junitxml={junit}", "--rootdir", work, tests], cwd=work, env=e,
+                   stdout=subprocess.DEVNULL, stderr=subprocess.DEVNULL, timeout=3000)
+    counters = json.load(open(cout)) if os.path.exists(cout) else {}
+    violations, ntests = [], 0
+    if os.path.exists(junit):
+        for tc in ET.parse(junit).getroot().iter("testcase"):
+            ntests += 1
+            for ch in tc:
+                if ch.tag in ("failure", "error"):
+                    txt = (ch.get("message") or "") + (ch.text or "")
+                    if "UnwrapContractBroken" in txt or "ShapeContractBroken" in txt:
+                        which = "unwrap.contract" if "UnwrapContractBroken" in txt else "returned_shape.contract"
+                        violations.append({"mechanism": which + ".in_test_suite", "summary": f"{tc.get('classname')}::{tc.get('name')}: {txt[:300]}",
+                                           "case": {"test": tc.get("name")}, "replay": dict(shard, name="replay")})
+    import shutil
+
+    shutil.rmtree(work, ignore_errors=True)
+    c = {"suite_tests_run_under_contracts": ntests}
+    c.update({"suite_" + k: v for k, v in counters.items()})
+    return {"evaluations": ntests, "nontrivial": min(ntests, 2), "samples": [], "counters": c, "violations": violations,
+            "required": {"suite_unwrap_contract_evaluations": counters.get("unwrap_contract_evaluations", 0)}}
 
 
 class UnwrapContractBroken(Exception):
@@ -87,6 +130,8 @@ def install_unwrap_contract(counts):
 
 
 def run_shard(shard):
+    if shard.get("pytest"):
+        return run_suite_under_contracts(shard)
     import equinox as eqx
     import jax
     import jax.numpy as jnp
